@@ -122,6 +122,12 @@ def cases(draw, tier='quick', driver=None, big=False):
     if fkind == 'die':
         how = draw(st.sampled_from(chan.HOWS))
         point = draw(st.sampled_from(['import', 'layer_setUp', 'test', 'test', 'layer_tearDown']))
+        if draw(st.integers(0, 3)) == 0:
+            # the child is ended by an exception nothing in the runner absorbs: KeyboardInterrupt (SIGINT) anywhere
+            # in the test phase, SystemExit out of a layer hook (inside a test unittest records it as an error, at import
+            # time it is an import failure: not deaths)
+            point = draw(st.sampled_from(['layer_setUp', 'test', 'test', 'layer_tearDown']))
+            how = 'kbdint' if point == 'test' else draw(st.sampled_from(['kbdint', 'sysexit0', 'sysexit3']))
         act = ['in_child', ['die', how], tgt]
         if point == 'import':
             at_import(act)
@@ -158,7 +164,10 @@ def cases(draw, tier='quick', driver=None, big=False):
         # diagnostics may fail, recording the lost layer must not depend on it
         ascii_console = True
         at_import(['in_child', ['noise', 'fd2', 'd\xc3\xa9marrage du service: \xe2\x9c\x93\n', 1], tgt])
-    return {'spec': spec, 'mode': mode, 'fault': fault, 'driver': driver, 'verbose': draw(st.sampled_from([1, 1, 2, 3])),
+    verbose = draw(st.sampled_from([1, 1, 2, 3, 0]))
+    if verbose == 0 and driver != 'inproc':
+        verbose = 1       # (without -v the lists are not printed: they are read from the Runner object, in-process only)
+    return {'spec': spec, 'mode': mode, 'fault': fault, 'driver': driver, 'verbose': verbose,
             'big': has_big, 'repeat': draw(st.sampled_from([1, 1, 1, 1, 2, 3])), 'ascii_console': ascii_console}
 
 
@@ -260,6 +269,11 @@ def oracle(case, spec, run):
     incomplete = accept == [ERROR]
     # ---- what it did record
     p = parse.parse(run.out)
+    if case['verbose'] == 0 and getattr(run, 'runner', None) is not None:
+        # what "Tests with failures / errors" would list (it prints str() of the first item of every record)
+        p.failures_list = [str(rec[0]) for rec in run.runner.failures]
+        p.errors_list = [str(rec[0]) for rec in run.runner.errors]
+        labels.append('v0')
     got_f = Counter(chan.norm(n) for n in (p.failures_list or []))
     got_e_all = [chan.norm(n) for n in (p.errors_list or [])]
     layer_entries = [n for n in got_e_all if tfull in n]
